@@ -248,4 +248,5 @@ def run(ctx):
     spaces.coefficient_maps(ctx)
     c16.colouring(ctx)
     c16.aliasing(ctx)
+    spaces.dof_by_entity(ctx)
     dispatch(ctx)
